@@ -31,6 +31,8 @@ Prev == IF l = 2 THEN Trace[tid].obs0 ELSE Ev[l - 2].obs
 SameShape == l > 1 => Len(Last.obs) = NS
 \* every scale maps the end points of the domain it reports exactly to the range it reports
 C12_EndpointsMap == l > 1 => \A s \in 1..Len(Last.obs) : Last.obs[s].e0 = 1 /\ Last.obs[s].e1 = 1
+\* invert is the inverse of the CURRENT map: the range end points come back as the reported domain end points
+C12_InvertAfterHistory == l > 1 => \A s \in 1..Len(Last.obs) : Last.obs[s].v0 = 1 /\ Last.obs[s].v1 = 1
 \* an action on one scale leaves every observation of every other scale unchanged
 C12_CopyIndependent == l > 1 => \A s \in 1..Len(Prev) : s # actor => Last.obs[s] = Prev[s]
 =============================================================================
